@@ -97,9 +97,19 @@ Section Sound.
   Definition good (w : list P) (sts : list nat) (nodes : list tree) (inp : list P) : Prop :=
     SI sts nodes /\ yields (rev nodes) ++ inp = w /\ Forall (fun p => kind p < pt_nterm T) inp.
 
-  Definition step_ok (w : list P) (inp : list P) (r : config + outcome) : Prop :=
+  (* what kind of step was taken: a shift consuming one token, or a reduce by rule r that popped
+     |rhs r| states, exposed p0 and pushed goto(p0, lhs r) *)
+  Definition step_kind (sts : list nat) (inp : list P) (sts' : list nat) (inp' : list P) : Prop :=
+    (exists p s', inp = p :: inp' /\ sts' = s' :: sts) \/
+    (inp' = inp /\ exists top rest r ru pushed p0 stk s',
+        sts = top :: rest /\
+        get_action T top (col T (la_of kind inp)) = Some (AReduce r) /\ nth_error rules r = Some ru /\
+        sts = pushed ++ p0 :: stk /\ length pushed = length (pr_rhs ru) /\
+        get_goto T p0 (pr_lhs ru) = Some (Some s') /\ sts' = s' :: p0 :: stk).
+
+  Definition step_ok (w : list P) (sts : list nat) (inp : list P) (r : config + outcome) : Prop :=
     match r with
-    | inl (sts', nodes', inp') => good w sts' nodes' inp' /\ (inp' = inp \/ exists p, inp = p :: inp')
+    | inl (sts', nodes', inp') => good w sts' nodes' inp' /\ step_kind sts inp sts' inp'
     | inr (OAccept t) => wf (PN (pt_start_nt T)) t /\ yield t = w /\ inp = []
     | inr (OReject tok) => tok = hd_error inp
     | inr (OPanic _) => False
@@ -109,7 +119,7 @@ Section Sound.
   Lemma col_lt inp : Forall (fun p => kind p < pt_nterm T) inp -> col T (la_of kind inp) <= pt_nterm T.
   Proof. intros H. destruct inp as [|p v]; cbn; [lia|]. inversion H; subst; lia. Qed.
 
-  Lemma step_good w sts nodes inp : good w sts nodes inp -> step_ok w inp (step kind T (sts, nodes, inp)).
+  Lemma step_good w sts nodes inp : good w sts nodes inp -> step_ok w sts inp (step kind T (sts, nodes, inp)).
   Proof.
     intros (HS & HY & HK). subst w.
     pose proof (SI_bound _ _ HS) as Hb.
@@ -125,7 +135,7 @@ Section Sound.
       destruct inp as [|p v].
       + cbn [la_of hd_error option_map col] in *. lia.
       + cbn [la_of hd_error option_map col] in *. subst.
-        cbn [step_ok]. split; [|right; eauto]. repeat split.
+        cbn [step_ok]. split; [|left; eauto]. repeat split.
         * eapply SI_push; [exact HS| |constructor]. unfold goto_sym. rewrite Ha. reflexivity.
         * cbn [rev]. rewrite yields_app, <- app_assoc. reflexivity.
         * inversion HK; assumption.
@@ -152,7 +162,9 @@ Section Sound.
       { cbn [irule] in Hnone. congruence. }
       cbn [irule] in Hr0. rewrite Hrule in Hr0. injection Hr0 as <-. rewrite Hr in Hru0. injection Hru0 as <-.
       destruct (inv_goto2 _ _ H2 _ _ _ _ Hjt Hjad) as (s' & Hg).
-      rewrite Hg. cbn [step_ok]. split; [|left; reflexivity]. repeat split.
+      rewrite Hg. cbn [step_ok]. split.
+      2:{ right. split; [reflexivity|]. exists top, rest, r, ru, pushed, s0, stk, s'. repeat split; auto. }
+      repeat split.
       + eapply SI_push; [exact E5| |econstructor; eassumption]. unfold goto_sym. rewrite Hg. reflexivity.
       + cbn [rev]. rewrite yields_app. cbn [yields flat_map app]. rewrite app_nil_r.
         rewrite rev_app_distr, rev_involutive, yields_app. reflexivity.
